@@ -236,7 +236,7 @@ def _run_stream_init_sync(
                 app._server._check_protocol_version(md.get(PROTOCOL_VERSION_KEY) if md is not None else None)
             try:
                 _deserialize_params(kwargs, info.param_types, app._server.ipc_validation)
-            except (KeyError, ValueError) as exc:
+            except (KeyError, ValueError, OSError, pa.ArrowException) as exc:
                 # Keep caller-value conversion failures in the HTTP 400 path
                 # without treating external-location resolver failures raised
                 # before deserialization as malformed Arrow.
